@@ -17,7 +17,9 @@
 (*   Filters  the queries of the statement: none, by artifact type, by     *)
 (*          annotation value, by annotation key only ("k"), and no filter  *)
 (*          but sorted by the annotation, ascending "sa" / descending "sd" *)
-(*          (the order itself is not part of the property).                *)
+(*          (the order itself is not part of the property), and           *)
+(*          conjunctions in ONE call: type and annotation value (t1x, t1y, *)
+(*          t2x), type and platform (t1p: nothing has a platform).         *)
 (* Expect(stored, subj, s, f) is THE definition of the property: the       *)
 (* referrers of s under filter f are exactly the stored manifests naming s *)
 (* that match f.                                                           *)
@@ -28,11 +30,15 @@ Arts == {"a1", "a2", "a3"}
 Subj == {"s1", "s2", "a1"}
 Type == [a \in Arts |-> IF a = "a2" THEN "t2" ELSE "t1"]
 Ann  == [a \in Arts |-> IF a = "a1" THEN "x" ELSE "y"]
-Filters == {"none", "t1", "t2", "x", "y", "k", "sa", "sd"}
-IsTypeFilter(f) == f \in {"t1", "t2"}
-Match(a, f) == CASE f \in {"t1", "t2"} -> Type[a] = f
-                 [] f \in {"x", "y"}   -> Ann[a] = f
-                 [] OTHER              -> TRUE
+Filters == {"none", "t1", "t2", "x", "y", "k", "sa", "sd", "t1x", "t1y", "t2x", "t1p"}
+\* a query is a conjunction: artifact type part (sent to the referrers API, which may apply it and say
+\* so in OCI-Filters-Applied), annotation part, platform part (no artifact of the pool has a platform)
+FType(f) == CASE f \in {"t1", "t1x", "t1y", "t1p"} -> "t1" [] f \in {"t2", "t2x"} -> "t2" [] OTHER -> ""
+FAnn(f) == CASE f \in {"x", "t1x", "t2x"} -> "x" [] f \in {"y", "t1y"} -> "y" [] OTHER -> ""
+FPlat(f) == f = "t1p"
+IsTypeFilter(f) == FType(f) # ""
+TypeMatch(a, f) == FType(f) = "" \/ Type[a] = FType(f)
+Match(a, f) == TypeMatch(a, f) /\ (FAnn(f) = "" \/ Ann[a] = FAnn(f)) /\ ~FPlat(f)
 \* subject maps: a1 and a2 name an image, only a3 may name another artifact
 SubjMaps == {m \in [Arts -> Subj] : m["a1"] # "a1" /\ m["a2"] # "a1"}
 
